@@ -134,7 +134,8 @@ impl TimeGen {
 
 fn random_history(id: String, seed: u64, cat: &Catalogue, rng: &mut SplitMix64, sink: &mut Sink) {
     let vol = cat.pick_small_cluster(rng, 4096);
-    let cfg = Cfg::new(true, rng.chance(1, 2), ClockMode::Tick);
+    let mut cfg = Cfg::new(true, rng.chance(1, 2), ClockMode::Tick);
+    cfg.optorder = optorder_of(&id);
     let cx = Ctx::new(id, "time", seed, vol, cfg);
     let mut g = TimeGen {
         cx,
